@@ -9,6 +9,7 @@ Arduino String / Stream / flash fakes.  Code, document and consumed bytes must b
 equal to the specification's; afterwards the document is inspected, serialized (JSON and MessagePack),
 cleared and reused; the memory requested is bounded linearly in the input size.  Builds: slot id 1/2/4
 bytes, string length 1/2/4 bytes, comments/NaN/Infinity on, unicode off."""
+import os
 import random
 
 import vlib
@@ -49,6 +50,19 @@ def run(tier):
     # MessagePack: every encoding, prefix, corruption and random bytes (bounded kinds only)
     mp.run_msgpack_feed(chk, wd, "msgpack", rng, n, [(l, bins[l]) for l in ["def", "arduino", "small", "mid", "big"]],
                         corrupt=True)
+    # MessagePack under arbitrary filter documents (string and number leaves, nested shapes that disagree with the input)
+    from checks import msgpackgen as mg
+    flines = mg.gen_filtered(rng, n // 4)
+    r, fcases, nf = mp.feed_cases(chk, "msgpack-filtered", wd, flines)
+    chk.add_tlc(r)
+    for l in ("def", "arduino"):
+        ran, evals, problems, _ = rc.replay_cases(chk, bins[l], fcases, f"msgpack-filtered/{l}")
+        chk.cov["traces_validated_against_impl"] += ran
+        chk.cov["evaluations"] += evals
+        for what, case in problems[:3]:
+            chk.violation(what, case)
+    chk.phase("feed:msgpack-filtered", lines=nf)
+    os.remove(fcases)
     return rk.finish(chk, "one evaluation = one byte string (with a nesting limit and possibly a filter) through one "
                           "input kind on one build; code, document, bytes consumed, post-conditions and memory bound "
                           "checked", rk.COMMON_ASSUMPTIONS + [
